@@ -446,9 +446,41 @@ func runC05(c *Ctx, w *World, r *Report) {
 	}
 	r.Check(bad == "", "R-SELECT", "bmtree.IndexToPath", w.Pos(fn.Pos()), bad, fmt.Sprintf("selector and loop exit both use mask&%d", selMask))
 
+	// R-FILL32: (index<<32 | fill) & mask reads one bit of the index half and one of the mask half; the mask-half bit is bit h, h <= 30
+	{
+		r.Rule("R-FILL32", "in IndexToPath every constant OR-ed with index<<32 (the word from which `& mask` picks the level's index bit and its mask bit) has bits 0..30 all set and nothing in the upper half: the level mask bit sits at bit h for heights up to 30; a narrower fill (e.g. 0x3fffffff) loses the mask bit of the top level of a height-30 tree only")
+		badF := ""
+		nf := 0
+		eachInstr(fn, func(ins ssa.Instruction) {
+			bo, ok := ins.(*ssa.BinOp)
+			if !ok || bo.Op != token.OR {
+				return
+			}
+			for _, side := range [2][2]ssa.Value{{bo.X, bo.Y}, {bo.Y, bo.X}} {
+				c, ok := constUint64(stripConv(side[1]))
+				if !ok {
+					continue
+				}
+				_, sh, ok := asShiftLeft(side[0])
+				if !ok || sh != 32 {
+					continue
+				}
+				nf++
+				if c&0x7fffffff != 0x7fffffff || c>>32 != 0 {
+					badF = fmt.Sprintf("index<<32 is filled with %#x at %s: bits 0..30 must all be set (and none above bit 31)", c, w.InstrPos(ins))
+				}
+			}
+		})
+		r.Check(badF == "" && nf > 0, "R-FILL32", "bmtree.IndexToPath", w.Pos(fn.Pos()), badF, fmt.Sprintf("%d fill constants, all covering bits 0..30", nf))
+	}
 	// contracts (if any) guarding IndexToPath must not overflow at height 30
 	if cf := contractFuncsOf(w, fn); len(cf) > 0 {
 		reportContractShl32(w, r, cf)
+		reportContractRangeGeneral(w, r, cf)
+	}
+	// the round trip goes through PathToIndex: its contracts must admit every path IndexToPath can produce (heights up to 30)
+	if cf := contractFuncsOf(w, fns["bmtree.PathToIndex"]); len(cf) > 0 {
+		reportContractRangeGeneral(w, r, cf)
 	}
 	// R-STALE: every step of the descent decides left/right from the CURRENT remaining index
 	r.Rule("R-STALE", "in IndexToPath every update of the remaining index (index--, index -= 2^k, the prefix-shortcut adjustment) is control dependent only on tests of that same version of the index: a left/right decision read from an older version (a stale bit, e.g. when several levels are decided from one read) mis-steps when the earlier move changed the lower bits")
